@@ -44,6 +44,52 @@ func runC20(c *core.Ctx) core.Meta {
 	c.BuildSSA()
 	prov := core.NewProv(c)
 
+	st15 := c.Rule("R20.15", "the parser reads exactly as many instruction lines for a warp as the warp declares: every call that parses an instruction line (extractInst) is reached only over the edge of a comparison of the running count with Warp.InstsCount on which more instructions are due (j < InstsCount). A loop that reads a line first and compares afterwards consumes the next structural line (`warp = N`, `#END_TB`) as an instruction for a warp with insts = 0: a valid trace with an empty warp cannot be loaded", 1)
+	{
+		pt := NewPkgInfo(c, "nvidia/tracereader")
+		fromCount := func(v ssa.Value) bool {
+			f := core.LoadedField(core.StripConv(v))
+			return f != nil && f.Name() == "InstsCount"
+		}
+		for _, fn := range pt.Funcs {
+			var g *core.Graph
+			for _, b := range fn.Blocks {
+				for _, in := range b.Instrs {
+					cc := core.CallOf(in)
+					if cc == nil || cc.StaticCallee() == nil || cc.StaticCallee().Name() != "extractInst" {
+						continue
+					}
+					if g == nil {
+						g = core.BuildGraph(fn, 0, nil)
+					}
+					n := g.NodeOf(in)
+					if n == nil {
+						continue
+					}
+					st15.Instances++
+					c.MarkAnalysed(fn)
+					ok := g.Guarded(n, CmpCut(func(_ *core.Node, op token.Token, x, y ssa.Value) int {
+						if !fromCount(y) {
+							return 0
+						}
+						switch op {
+						case token.LSS, token.NEQ:
+							return 1
+						case token.GEQ, token.EQL:
+							return -1
+						}
+						return 0
+					}))
+					st15.Ob(ok)
+					st15.Sample("%s: an instruction line is parsed only where the count is below InstsCount: %v", core.FuncName(fn), ok)
+					if !ok {
+						c.ReportAt("R20.15", fn, in.Pos(), "inst-line-read-before-count-test:"+core.FuncName(fn), core.FuncName(fn)+" parses an instruction line on a path that did not first find the running count below the warp's InstsCount: for a warp with insts = 0 the line that follows (`warp = N` or `#END_TB`) is handed to the instruction parser, which panics; the trace cannot be loaded")
+					}
+				}
+			}
+		}
+	}
+
 	st14 := c.Rule("R20.14", "a message that a component handled is taken off its port: in every handler of the four levels, from PeekIncoming (message present) no path reaches `return true` without RetrieveIncoming on the same port (callees of the package followed): a thread block or a completion that stays at the head of the port is accounted again on every tick, the counters run past zero and the run never ends", 4)
 	for _, rel := range []string{"nvidia/subcore", "nvidia/sm", "nvidia/gpu", "nvidia/driver"} {
 		checkPeekedHandledConsumed(c, st14, "R20.14", NewPkgInfo(c, rel), "the same message is handled again on the next tick (a thread block is counted finished once per cycle, the level above sees its outstanding count pass zero)")
